@@ -539,3 +539,47 @@ def c11_i9(ctx):
                     yield ok("C11-I9", key, at(f, st["span"]["line"]), "every path from the Err arm goes back to the head of the receive loop")
     if n == 0:
         raise Anchor("C11-I9", "the Err arm of the receive() result in pdu_handler")
+
+
+# ================================================================ C11-I10: a transaction task never waits on its link alone
+@rule("C11", "C11-I10", 2, "a transaction's task waits for room on its outbound link only as one branch of its select, next to its command queue and its timer: it never awaits the transport permit on its own (while it did, it would stop draining its command queue, the daemon's forward_pdu would block on that queue, and every other transaction would stall behind one slow link)", also=("C19",))
+def c11_i10(ctx):
+    from common import local_uses
+
+    fs = [f for f in ctx.prog.by_norm.values() if f.crate == "cfdp_daemon" and f.kind == "Closure" and re.search(r"Daemon::spawn_(receive|send)_transaction$", short(f.root or "") and (f.root or ""))]
+    if not fs:
+        raise Anchor("C11-I10", "task bodies of Daemon::spawn_receive_transaction / spawn_send_transaction")
+    n = 0
+    for f in fs:
+        for b, t in f.all_calls():
+            d, r, _ = ctx.prog.callee_of(t)
+            cal = r or d or ""
+            if not (cal.startswith("tokio::sync::mpsc") and cal.split("::")[-1] in ("reserve", "reserve_owned", "reserve_many")):
+                continue
+            n += 1
+            key = "%s:reserve" % short(f.root or f.norm) + ("#%d" % n if n > 1 else "")
+            verdict = None
+            seen = set()
+            work = [t["dest"]["local"]] if not t["dest"]["proj"] else []
+            while work and verdict is None:
+                l = work.pop()
+                if l in seen:
+                    continue
+                seen.add(l)
+                for kind, ub, uj, u in local_uses(f, l):
+                    if kind == "stmt" and u["rv"]["k"] == "agg" and u["rv"].get("agg") == "tuple":
+                        verdict = "select"
+                    elif kind == "stmt" and u["rv"]["k"] in ("use", "ref") and not u["place"]["proj"]:
+                        work.append(u["place"]["local"])
+                    elif kind == "call":
+                        dd, rr, _i = ctx.prog.callee_of(u)
+                        if (rr or dd or "").endswith("into_future"):
+                            verdict = "alone"
+            if verdict == "select":
+                yield ok("C11-I10", key, at(f, t["span"]["line"]), "one branch of the task's select")
+            elif verdict == "alone":
+                yield bad("C11-I10", key, at(f, t["span"]["line"]), "the task awaits a transport permit on its own: while the link has no room it neither drains its command queue nor serves its timers; the daemon's forward_pdu then blocks on that queue and every other transaction stalls")
+            else:
+                yield undecided("C11-I10", key, at(f, t["span"]["line"]), "use of the permit future not recognised")
+    if n == 0:
+        raise Anchor("C11-I10", "transport permit reservations in the transaction tasks")
